@@ -23,3 +23,4 @@ pub type CertificateIndex = u32;
 // derived `Clone` of the two 28-byte hash newtypes (trusted: derive expansion)
 impl Clone for Ed25519KeyHash { #[verifier::external_body] fn clone(&self) -> (r: Self) ensures r == *self { unimplemented!() } }
 impl Clone for ScriptHash { #[verifier::external_body] fn clone(&self) -> (r: Self) ensures r == *self { unimplemented!() } }
+impl Clone for ByronAddress { #[verifier::external_body] fn clone(&self) -> (r: Self) ensures r == *self { unimplemented!() } }
